@@ -58,6 +58,11 @@ except ImportError:
     import json
     JSONDecodeError = ValueError
 
+try:
+    RecursionError
+except NameError:  # Python 2
+    RecursionError = RuntimeError
+
 from spyne.error import ValidationError
 from spyne.error import ResourceNotFoundError
 
@@ -187,7 +192,9 @@ class JsonDocument(HierDictDocument):
                     in_string = in_string.decode(in_string_encoding)
             ctx.in_document = json.loads(in_string, **self.kwargs)
 
-        except JSONDecodeError as e:
+        except (JSONDecodeError, RecursionError) as e:
+            # RecursionError: a document nested deeper than the interpreter's
+            # recursion limit
             raise Fault('Client.JsonDecodeError', repr(e))
 
     def create_out_string(self, ctx, out_string_encoding='utf8'):
